@@ -367,6 +367,32 @@ fn verif_pure_parser()
             if got != want { t.wrong(&format!("{:?}", text), &format!("expected {:?} got {:?}", want, got)); }
         }
     }
+    /*  LONG files: hundreds of rules, then nothing / each kind of damage far down (line numbers well beyond 255 and 65 535 are not
+        reached here, but 1 500 is) */
+    for n in [1usize, 40, 300].iter()
+    {
+        let mut body = String::new();
+        for i in 0..*n { body.push_str(&format!("target{}.txt\nother{}.txt\n:\nsource{}.txt\n:\ncc\n-o\ntarget{}.txt\nsource{}.txt\n:\n\n", i, i, i, i, i)); }
+        for tail in ["", "late.txt\n:\nsrc.txt\n:\ncmd\n:\n", "late.txt\n\n", "late.txt\n:\n:\n:\n:\n", "late.txt\n:\nsrc.txt", "late.txt", "late.txt\n:\nsrc.txt\n:\ncmd", "\t\tdeep.txt\n:\ns\n:\nc\n:\n"].iter()
+        {
+            t.case();
+            let text = format!("{}{}", body, tail);
+            let split : Vec<String> = text.split('\n').map(|s| s.to_string()).collect();
+            let want = ref_parse(&split);
+            let parsed = match guard(|| parse("f.rules".to_string(), text.clone())) { Some(p) => p, None => { t.wrong(&format!("{} rules + {:?}", n, tail), "parse PANICKED"); continue; } };
+            let got = match parsed
+            {
+                Ok(rs) => Ok(rs.iter().map(|r| (r.targets.clone(), r.sources.clone(), r.command.clone())).collect::<Vec<_>>()),
+                Err(ParseError::UnexpectedEmptyLine(f, n)) => Err(format!("EmptyLine@{}{}", n, if f == "f.rules" { "" } else { " wrong file" })),
+                Err(ParseError::UnexpectedExtraColon(_, n)) => Err(format!("ExtraColon@{}", n)),
+                Err(ParseError::UnexpectedEndOfFileMidTargets(_, n)) => Err(format!("EofTargets@{}", n)),
+                Err(ParseError::UnexpectedEndOfFileMidSources(_, n)) => Err(format!("EofSources@{}", n)),
+                Err(ParseError::UnexpectedEndOfFileMidCommand(_, n)) => Err(format!("EofCommand@{}", n)),
+                Err(ParseError::BundleError(_, e)) => Err(format!("Bundle({:?})", e)),
+            };
+            if got != want { t.wrong(&format!("{} rules + {:?}", n, tail), &format!("expected {:?} got {:?}", want.as_ref().map(|v| v.len()), got.as_ref().map(|v| v.len()))); }
+        }
+    }
     t.done();
 }
 
